@@ -59,7 +59,7 @@ var (
 )
 
 func cpNames(more bool) []string {
-	n := []string{"a", "debian-binary", "0123456789abcdef", "0123456789abcde/", "x/", "a b/", "a/b", "r.\xe9s", "data.ȺȺȺȺȺ", strings.Repeat("\xff", 16)}
+	n := []string{"a", "debian-binary", "0123456789abcdef", "0123456789abcde/", "x/", "a b/", "a/b", "r.\xe9s", "data.ȺȺȺȺȺ", strings.Repeat("\xff", 16), "notes /", "x \t/", "0123456789abcd /"}
 	if more {
 		n = append(n, "a b", "e.tar.gz")
 	}
@@ -610,6 +610,9 @@ func Run(r *mc.Run) {
 		sp("/0", "first"), sp("/25", "second"), sp("/999", "far"), sp("/0/", "slash"), sp("/x", "text"), sp("/-1", "neg"),
 		sp("#1/20", "twenty-byte-name.o\x00\x00payload"), sp("#1/0", "payload"), sp("#1/99", "short"),
 		sp("a", "plain"), sp("b.o/", "obj"),
+		// GNU-terminated names whose RECORDED name ends in white space (the terminator, not the blank, ends the name),
+		// next to the member they must not be confused with
+		sp("notes /", "blank before the terminator"), sp("notes\t/", "tab before the terminator"), sp("notes", "the plain one"), sp("notes/", "terminated"),
 	}
 	spArchs := archives(len(special), 3)[1:]
 	r.Scenario("special-name-sequences", map[string]interface{}{"member_shapes": len(special), "members": "1..3", "archives": len(spArchs), "readerat_conventions": 2, "schedules": 3,
